@@ -3,7 +3,7 @@
     positive, ascii, string stay the Coq datatypes. *)
 From Coq Require Import Extraction ExtrOcamlBasic.
 From Coq Require Import List ZArith NArith.
-From Kismet Require Import Gen.Constants Pure.SecondChance Pure.Trigger Pure.Hash.
+From Kismet Require Import Gen.Constants Pure.SecondChance Pure.Trigger Pure.Hash FS.Fs FS.Prog Ops.Ops Ops.Client.
 
 Definition plain_scale : N := Constants.PLAIN_MAINTENANCE_SCALE.
 Definition sharded_scale : N := Constants.SHARDED_MAINTENANCE_SCALE.
@@ -14,4 +14,9 @@ Extraction "../ocaml/gen/kmodel.ml"
   Nat.add
   mkEntry plan plan_rest valid_plan clock ssort clear
   scale weight observe run_events write_step plain_period sharded_period sharded_shard_capacity sharded_num_shards
-  plain_scale sharded_scale shard_ids eff_shards format_id valid_name mix reduce PRIMARY SECONDARY.
+  plain_scale sharded_scale shard_ids eff_shards format_id valid_name mix reduce PRIMARY SECONDARY
+  sem run empty_fs resolve children name_of inode_of fd_of set_inode set_names alloc_inode tick significant
+  cache_get cache_touch cache_set cache_put cache_write_temp get_or_update ensure ro_get ro_touch
+  f_get f_touch f_set f_put f_temp_dir prune
+  client_set_path client_set_temp client_front_write client_populate client_judge chk_byteeq chk_panic chk_count
+  stage_path stage_temp bind.
